@@ -90,6 +90,99 @@ class CallGraph:
         return list(reversed(out))
 
 
+UNORDERED = ("std::collections::HashMap<", "std::collections::HashSet<", "std::collections::BTreeMap<", "std::collections::BTreeSet<")
+ORDER_FREE_CONSUMERS = ("any", "all", "count", "min", "max", "sum", "product")
+ADAPTERS = ("map", "filter", "filter_map", "cloned", "copied", "into_iter", "iter", "flat_map", "chain", "enumerate", "rev", "skip", "take", "inspect", "peekable")
+
+
+def sink_of_iteration(body, bb):
+    """Follow the iterator produced in block bb through adapter calls; returns ('collect', type) | ('extend', type) | ('other', callee)."""
+    t = body.blocks[bb]["t"]
+    cur = t["d"]["l"]
+    nxt = t["t"]
+    seen = 0
+    while nxt is not None and seen < 12:
+        seen += 1
+        # find the (unique) call consuming `cur` as its first argument, following moves
+        aliases = {cur}
+        consumer = None
+        for i in sorted(body.live_blocks()):
+            for s in body.blocks[i]["s"]:
+                if s["k"] == "assign" and s["r"]["k"] == "use" and not s["p"]["p"]:
+                    pl = s["r"]["o"].get("m") or s["r"]["o"].get("c")
+                    if pl and not pl["p"] and pl["l"] in aliases:
+                        aliases.add(s["p"]["l"])
+                if s["k"] == "assign" and s["r"]["k"] == "ref" and not s["p"]["p"] and s["r"]["p"]["l"] in aliases:
+                    aliases.add(s["p"]["l"])
+        for i, tt in body.calls():
+            if i == bb:
+                continue
+            for a in tt["args"][:1]:
+                pl = a.get("m") or a.get("c")
+                if pl and pl["l"] in aliases:
+                    consumer = (i, tt)
+        if consumer is None:
+            return ("other", "no consuming call (used by reference / loop)")
+        i, tt = consumer
+        c = tt.get("callee") or {}
+        name = c.get("name")
+        if name == "collect":
+            target = (c.get("args") or ["", ""])[-1]
+            body._last_collect_bb = i
+            return ("collect", target)
+        if name == "extend":
+            return ("extend", c.get("self", "") or " ".join(c.get("args", [])))
+        if name in ORDER_FREE_CONSUMERS and (c.get("trait") == "std::iter::Iterator"):
+            return ("order-free", name)
+        if name in ADAPTERS:
+            cur = tt["d"]["l"]
+            bb = i
+            continue
+        return ("other", c.get("path"))
+    return ("other", "chain too long")
+
+
+def sink_bb(body, bb):
+    return getattr(body, "_last_collect_bb", bb)
+
+
+def sorted_before_use(body, bb):
+    """The Vec collected by the call in block bb is put into canonical order (`sort` / `sort_unstable`, i.e. by the full `Ord` of
+    the elements) before anything else reads it: the hash order it was collected in cannot be observed."""
+    def uses_collected(o):
+        return mir.contains(o, lambda x: isinstance(x, tuple) and x and x[0] == "call" and len(x) > 3 and x[3] == bb)
+    sorts, others = [], []
+    for i, t in body.calls():
+        if i == bb:
+            continue
+        if any(uses_collected(body.origin_operand(a)) for a in t["args"]):
+            c = t.get("callee") or {}
+            if c.get("name") in ("sort", "sort_unstable") and "slice" in (c.get("path") or ""):
+                sorts.append(i)
+            elif c.get("name") in ("deref_mut", "as_mut_slice", "deref", "as_mut"):
+                continue
+            else:
+                others.append(i)
+    if len(sorts) != 1:
+        return False
+    return body.dominates(bb, sorts[0]) and all(body.dominates(sorts[0], o) for o in others)
+
+
+def order_free_sink(body, bb, kind=None, what=None):
+    """Text describing why the hash-ordered sequence produced in block bb cannot influence the result, or None:
+    it is collected into an unordered/sorted collection, into a Vec that is sorted before any other use, or consumed by an
+    order-insensitive reduction (any/all/count/min/max/sum/product)."""
+    if kind is None:
+        kind, what = sink_of_iteration(body, bb)
+    if kind in ("collect", "extend") and any(what.startswith(u) or u in what for u in UNORDERED):
+        return what
+    if kind == "collect" and what.startswith("std::vec::Vec<") and sorted_before_use(body, sink_bb(body, bb)):
+        return "Vec, sorted before any other use"
+    if kind == "order-free":
+        return "order-insensitive reduction `%s`" % what
+    return None
+
+
 def is_hash_type(s):
     return "std::collections::HashMap<" in s or "std::collections::HashSet<" in s or "hash_map::" in s or "hash_set::" in s \
         or "std::collections::hash::map::" in s or "std::collections::hash::set::" in s
@@ -131,8 +224,9 @@ def handed_over_iterables(c):
 def hash_order_sites(f):
     """Call sites in fn fact f whose callee is an order-exposing method of a hash collection."""
     out = []
-    for body in [f["body"]] + f.get("promoted", []):
-        for bb in body["blocks"]:
+    for nbody, body in enumerate([f["body"]] + f.get("promoted", [])):
+        for bidx, bb in enumerate(body["blocks"]):
+            bi = bidx if nbody == 0 else None
             t = bb["t"]
             if t["k"] != "call" or not t.get("callee"):
                 continue
@@ -144,11 +238,11 @@ def hash_order_sites(f):
             hay = " ".join([c["path"], selfty, res.get("path", ""), res.get("impl_self", "") or ""])
             recv_hash = is_hash_type(hay) or (name == "into_iter" and is_hash_type(args))
             for a in handed_over_iterables(c):
-                out.append({"callee": c["path"], "name": "%s(<hash iterable>)" % name, "line": t.get("line"), "self": a, "dty": t.get("dty")})
+                out.append({"callee": c["path"], "name": "%s(<hash iterable>)" % name, "line": t.get("line"), "self": a, "dty": t.get("dty"), "bb": None})
             if not recv_hash:
                 continue
             if name in ORDER_EXPOSING or (name == "into_iter"):
-                out.append({"callee": c["path"], "name": name, "line": t.get("line"), "self": selfty or args, "dty": t.get("dty")})
+                out.append({"callee": c["path"], "name": name, "line": t.get("line"), "self": selfty or args, "dty": t.get("dty"), "bb": bi})
     return out
 
 
